@@ -1,0 +1,85 @@
+//go:build verif && (verif_all || verif_c09)
+// +build verif
+// +build verif_all verif_c09
+
+package gocql
+
+// Verification hooks (build tag `verif`), add-only: the routing-key info cache
+// (Session.routingKeyInfoCache, an LRU keyed by the statement text) over a HISTORY of one
+// connection-less routing session of verif_export_c09c.go - several prepared statements, the only
+// host going down and coming back, the server's answer to PREPARE and the schema metadata changing
+// (a table dropped and re-created), the size of the cache changing - and the partitioner that
+// newTokenRing selects for a partitioner class name.
+
+// VerifC09SetHostsUp marks every host of the session's ring up or down (Session.getConn skips
+// hosts that are not up: routingKeyInfo then finds no connection).
+func VerifC09SetHostsUp(s *Session, up bool) {
+	st := NodeDown
+	if up {
+		st = NodeUp
+	}
+	for _, h := range s.ring.allHosts() {
+		h.setState(st)
+	}
+}
+
+// VerifC09CacheMax is Session.routingKeyInfoCache.Max(n) (what ClusterConfig.MaxRoutingKeyInfo sets
+// at session creation; 0 = no limit).
+func VerifC09CacheMax(s *Session, n int) { s.routingKeyInfoCache.Max(n) }
+
+// VerifC09CacheLen is the number of statements the routing-key info cache holds.
+func VerifC09CacheLen(s *Session) int {
+	s.routingKeyInfoCache.mu.Lock()
+	defer s.routingKeyInfoCache.mu.Unlock()
+	return s.routingKeyInfoCache.lru.Len()
+}
+
+// VerifC09CacheOrder returns the statements the routing-key info cache holds, from the most
+// recently used to the oldest, without changing that order (lru.Cache has no iteration: the cache is
+// emptied with RemoveOldest - oldest first, recorded through OnEvicted - and re-filled in the same
+// order; Add pushes to the front, so the oldest is added first).
+func VerifC09CacheOrder(s *Session) []string {
+	s.routingKeyInfoCache.mu.Lock()
+	defer s.routingKeyInfoCache.mu.Unlock()
+	c := s.routingKeyInfoCache.lru
+	type kv struct {
+		k string
+		v interface{}
+	}
+	var old []kv // oldest first
+	prev := c.OnEvicted
+	c.OnEvicted = func(k string, v interface{}) { old = append(old, kv{k, v}) }
+	for c.Len() > 0 {
+		c.RemoveOldest()
+	}
+	c.OnEvicted = prev
+	for _, e := range old {
+		c.Add(e.k, e.v) // Add pushes to the front: the oldest is added first
+	}
+	out := make([]string, len(old))
+	for i, e := range old {
+		out[len(old)-1-i] = e.k
+	}
+	return out
+}
+
+// VerifC09BatchExplicitKey: a fresh Batch with the routing key set (Batch.routingKey has no public
+// setter; the field exists and Batch.GetRoutingKey honours it) and one entry (stmt, vals).
+func VerifC09BatchExplicitKey(s *Session, key []byte, stmt string, vals []interface{}) ([]byte, error) {
+	b := s.NewBatch(LoggedBatch)
+	b.routingKey = key
+	if stmt != "" {
+		b.Query(stmt, vals...)
+	}
+	return b.GetRoutingKey()
+}
+
+// VerifC09PartitionerOf: the partitioner newTokenRing selects for the partitioner class name the
+// cluster reports (system.local partitioner): its Name(), or "" with the error.
+func VerifC09PartitionerOf(name string) (string, error) {
+	tr, err := newTokenRing(name, nil)
+	if err != nil {
+		return "", err
+	}
+	return tr.partitioner.Name(), nil
+}
